@@ -56,6 +56,13 @@ fn cuts(r: &mut Rng, data: &[u8]) -> Vec<Vec<u8>> {
 pub fn gen(seed: u64, n: usize, _tier: &str) -> Vec<Case> {
     let mut r = Rng::new(seed);
     let mut cases = vec![];
+    // the reply path under partial writes and a full socket: 8 MiB of replies owed to a late reader (more than a socket takes in one write)
+    for (id, (size, count)) in [(65536i128, 128i128), (4099, 2000)].iter().enumerate() {
+        let seed = r.below(256) as i128;
+        let ops = vec![conn_op(1), conn_op(2), vec![b("BIG"), i(1), i(0), b("big"), i(seed), i(*size), i(*count)],
+            cmd_op(1, &[b"STRLEN", b"big"]), cmd_op(2, &[b"PING"])];
+        cases.push(Case { id: format!("big-{}", id), ops, outs: vec![] });
+    }
     for id in 0..n {
         let mut ops = vec![conn_op(1), conn_op(2)];
         // seed a wrong-type key so type errors occur
